@@ -122,6 +122,7 @@ type World struct {
 	// mid-reconcile so that the recorded snapshot stays the one the reconcile listed.
 	CatchUp         bool
 	CatchUpOneByOne bool
+	midCopies       []cacheCopy
 }
 
 func (w *World) afterCall(c *simapi.Call) {
@@ -137,7 +138,15 @@ func (w *World) afterCall(c *simapi.Call) {
 		if w.CatchUpOneByOne {
 			n = 1
 		}
-		w.Deliver(c.Res, n)
+		if w.Deliver(c.Res, n) > 0 {
+			// the objects that just entered the cache are watched for in-place modification as well
+			idx := w.inf[c.Res].GetIndexer()
+			for _, k := range idx.ListKeys() {
+				o, _, _ := idx.GetByKey(k)
+				ro := o.(runtime.Object)
+				w.midCopies = append(w.midCopies, cacheCopy{c.Res, k, ro, ro.DeepCopyObject()})
+			}
+		}
 	}
 }
 
@@ -534,8 +543,15 @@ func (w *World) run(key string, viaWorker bool) (rec *Record) {
 		}
 	}
 	rec.After = w.Srv.Snap()
+	copies = append(copies, w.midCopies...)
+	w.midCopies = nil
+	seenMut := map[string]bool{}
 	for _, c := range copies {
+		if seenMut[string(c.res)+c.key] {
+			continue
+		}
 		if !reflect.DeepEqual(c.obj, c.cp) {
+			seenMut[string(c.res)+c.key] = true
 			rec.CacheMutations = append(rec.CacheMutations, fmt.Sprintf("%s %s", c.res, c.key))
 		}
 	}
